@@ -166,12 +166,13 @@ def tlc(module: str, cfg: str, *, env: dict | None = None, workers: int | str = 
         raise MachineryError(f'TLC timeout ({timeout}s) on {module} [{tag}]') from ex
     wall = time.time() - t0
     oj = None
-    if out.exists():
+    if out.exists() and out_name.endswith('.json'):
         try:
             oj = json.loads(out.read_text())
         except Exception as ex:  # pragma: no cover
             raise MachineryError(f'unreadable TLC output json {out}: {ex}')
     res = TLCResult(p.returncode, p.stdout + p.stderr, oj, wall)
+    res.out_path = out
     if check and (res.error and not res.violated):
         keep = REPLAYS.parent / 'tlc-failures'
         keep.mkdir(parents=True, exist_ok=True)
